@@ -259,8 +259,9 @@ func compareOuts(pre, post *progen.Val, t *progen.T, p *progen.Program, where st
 		// explicit output names, indices and keys
 		_, aliased := used["orig:"+orig]
 		used["orig:"+orig] = where
-		if strings.HasPrefix(np, ps+"/outs/") && !aliased {
-			// (a second leaf naming the same source file may share the
+		if strings.HasPrefix(np, ps+"/outs/") && !aliased && d.TopKeys != 3 {
+			// (which directory stands for a fork key that is no directory
+			// name - "..", TopKeys 3 - is not stated; a second leaf naming the same source file may share the
 			// first one's location: which derived path is used is unspecified)
 			got := strings.Split(strings.TrimPrefix(np, ps+"/outs/"), "/")
 			ok := len(got) == len(comps)
@@ -328,7 +329,24 @@ func outsOracle(d progen.OutsParams, p *progen.Program, res *Result) []string {
 			}
 		}
 	}
-	if d.TopMap {
+	if d.TopMap && d.TopKeys != 0 {
+		if pre.K != progen.VObj || res.TopOuts.K != progen.VObj || len(pre.O) != len(res.TopOuts.O) {
+			return append(out, "mapped top-level outputs changed shape: "+ev.Short(res.TopOutsText, 300))
+		}
+		for _, k := range pre.Keys() {
+			post, ok := res.TopOuts.O[k]
+			if !ok {
+				out = append(out, fmt.Sprintf("the outputs of the top-level fork with key %q are missing from the record", k))
+				continue
+			}
+			// a key holding '/' names nested directories
+			var comps []pathComp
+			for _, part := range strings.Split(k, "/") {
+				comps = append(comps, pathComp{name: part})
+			}
+			walkTop(pre.O[k], post, fmt.Sprintf("[%q].", k), comps)
+		}
+	} else if d.TopMap {
 		if pre.K != progen.VArr || res.TopOuts.K != progen.VArr || len(pre.A) != len(res.TopOuts.A) {
 			return append(out, "mapped top-level outputs changed shape: "+ev.Short(res.TopOutsText, 300))
 		}
